@@ -124,6 +124,46 @@ class SimRLock(_SimLockBase):
         return self._real._is_owned()
 
 
+def _install_global_setter_seams():
+    """Setters of process-global interpreter state become scheduler yield points (and "shared
+    access" positions for the generation-race sweeps) when a simulated thread calls them under a
+    scheduler whose plan asks for it.  They only add yield points; behaviour is unchanged."""
+    import locale
+    import os as _os
+    import random as _random
+    import signal as _signal
+    import warnings as _warnings
+
+    def wrap(name, fn):
+        if getattr(fn, "_tsim", False):
+            return fn
+
+        def w(*a, **k):
+            s = SIM.sched
+            if s is None or s.abandoned or not s.params.get("global_points") \
+                    or getattr(threading.current_thread(), "sim_id", None) is None:
+                return fn(*a, **k)
+            s.point(f"global.{name}.before", True, False, True)
+            try:
+                return fn(*a, **k)
+            finally:
+                s.point(f"global.{name}.after", True, False, True)
+
+        w._tsim = True
+        w.__name__ = getattr(fn, "__name__", name)
+        return w
+
+    sys.setrecursionlimit = wrap("setrecursionlimit", sys.setrecursionlimit)
+    sys.setswitchinterval = wrap("setswitchinterval", sys.setswitchinterval)
+    # (os.chdir is left alone: cffi's own compile path calls it a dozen times per C kernel, under
+    # tensora's lock; line-level pre-emption inside cffi/recompiler.py covers that window already)
+    locale.setlocale = wrap("setlocale", locale.setlocale)
+    _signal.signal = wrap("signal", _signal.signal)
+    _random.seed = wrap("random.seed", _random.seed)
+    _warnings.catch_warnings.__enter__ = wrap("catch_warnings.enter", _warnings.catch_warnings.__enter__)
+    _warnings.catch_warnings.__exit__ = wrap("catch_warnings.exit", _warnings.catch_warnings.__exit__)
+
+
 def boot(sim_locks: bool = False):
     """Install the seams and import tensora from the working tree.  Idempotent."""
     if SIM.heap is not None:
@@ -169,6 +209,7 @@ def boot(sim_locks: bool = False):
         FFI.set_source = set_source
 
     if sim_locks:
+        _install_global_setter_seams()
         threading.Lock = SimLock
         threading.RLock = SimRLock
     try:
